@@ -108,6 +108,12 @@ namespace PL
          case 5:
             if constexpr( ( ( VERIF_CTLS ) & 32 ) != 0 ) return run_fam< mon_errB >( c, in, fuel_limit );
             break;
+         case 6:
+            if constexpr( ( ( VERIF_CTLS ) & 64 ) != 0 ) return run_fam< plain_errA >( c, in, fuel_limit );
+            break;
+         case 7:
+            if constexpr( ( ( VERIF_CTLS ) & 128 ) != 0 ) return run_fam< plain_errB >( c, in, fuel_limit );
+            break;
       }
       fprintf( stderr, "FATAL: control %d not compiled into this unit\n", c.ctl );
       abort();
